@@ -18,6 +18,7 @@
 #	pragma clang diagnostic push
 #	pragma clang diagnostic ignored "-Wsign-conversion"
 #	pragma clang diagnostic ignored "-Wpadded"
+#	pragma clang diagnostic ignored "-Wfloat-equal"
 #endif
 
 typedef union
@@ -83,13 +84,13 @@ namespace detail
 		if((ix > 0x7f800000) ||	// x is nan
 			(iy > 0x7f800000))	// y is nan
 			return x + y;
-		if(abs(y - x) <= epsilon<float>())
+		if(x == y)
 			return y;		// x=y, return y
 		if(ix == 0)
 		{				// x == 0
 			GLM_SET_FLOAT_WORD(x, (hy & 0x80000000) | 1);// return +-minsubnormal
 			t = x * x;
-			if(abs(t - x) <= epsilon<float>())
+			if(t == x)
 				return t;
 			else
 				return x;	// raise underflow flag
@@ -114,7 +115,7 @@ namespace detail
 		if(hy < 0x00800000)		// underflow
 		{
 			t = x * x;
-			if(abs(t - x) > epsilon<float>())
+			if(t != x)
 			{					// raise underflow flag
 				GLM_SET_FLOAT_WORD(y, hx);
 				return y;
@@ -138,13 +139,13 @@ namespace detail
 		if(((ix >= 0x7ff00000) && ((ix - 0x7ff00000) | lx) != 0) ||	// x is nan
 			((iy >= 0x7ff00000) && ((iy - 0x7ff00000) | ly) != 0))	// y is nan
 			return x + y;
-		if(abs(y - x) <= epsilon<double>())
+		if(x == y)
 			return y;									// x=y, return y
 		if((ix | lx) == 0)
 		{													// x == 0
 			GLM_INSERT_WORDS(x, hy & 0x80000000, 1);		// return +-minsubnormal
 			t = x * x;
-			if(abs(t - x) <= epsilon<double>())
+			if(t == x)
 				return t;
 			else
 				return x;   // raise underflow flag
@@ -175,7 +176,7 @@ namespace detail
 		if(hy < 0x00100000)
 		{						// underflow
 			t = x * x;
-			if(abs(t - x) > epsilon<double>())
+			if(t != x)
 			{					// raise underflow flag
 				GLM_INSERT_WORDS(y, hx, lx);
 				return y;
